@@ -42,14 +42,17 @@ func hasRecoverBarrier(p *Prog, fn *ssa.Function, at ssa.Instruction) (bool, str
 			return
 		}
 		rec := false
+		var recCall *ssa.Call
 		eachInstr(cl, func(x ssa.Instruction) {
 			if c, ok := x.(*ssa.Call); ok && calleeName(c) == "builtin recover" {
 				rec = true
+				recCall = c
 			}
 		})
 		if !rec {
 			return
 		}
+		nilEdges, _ := p.guardEdges(cl, matchValueNil(p, recCall))
 		if !p.dominatesInstr(in, at) {
 			why = "the deferred recover() does not dominate the decoder call"
 			return
@@ -59,12 +62,15 @@ func hasRecoverBarrier(p *Prog, fn *ssa.Function, at ssa.Instruction) (bool, str
 		eachInstr(cl, func(x ssa.Instruction) {
 			if s, ok := x.(*ssa.Store); ok {
 				if cell := p.localCell(s.Addr); cell != nil && cell.Parent() == fn && isNamedResult(fn, cell) {
-					setsResult = true
+					// a non-nil error, stored on the edge on which a panic was actually recovered
+					if !nilConst(s.Val) && p.reachableCutting(cl, s, nilEdges) {
+						setsResult = true
+					}
 				}
 			}
 		})
 		if !setsResult {
-			why = "the recover closure does not set the function's error result: the caller would see success"
+			why = "the recover closure does not set the function's error result to a non-nil error when a panic was recovered: the caller would see success"
 			return
 		}
 		found = true
